@@ -164,9 +164,12 @@ func init() {
 			s3b("tap=1", 25000, 800000),
 			s3b("tap=1,hold=1", 30000, 1000000),
 			s3b("tap=1,hold=1,pure=1", 20000, 600000),
+			s3b("tap=1,nested=1", 60000, 2000000),
+			s3b("tap=1,hold=1,nested=1", 10000, 400000),
 			s3root("", 4000, 120000),
 			s3root("tap=1", 2000, 80000),
 			s3root("tap=1,hold=1", 2000, 80000),
+			s3root("tap=1,nested=1", 2000, 60000),
 			{Pkg: "scen/s2", Scen: "feed", Cfg: "", Module: "root", Seams: seamsS2, NoRace: true, Quick: 15000, Thorough: 1000000, ThoroughSecs: 900,
 				Real: []string{"d2 of the root module (update loops, snapshots, host selection; same scenario, import path switched)"}},
 		},
